@@ -212,6 +212,7 @@ func c11(cx *Ctx, r *ev.Report) {
 	r.Rules = append(r.Rules, ruleM, ruleF)
 	r.Assumptions = append(r.Assumptions, commonAssumptions...)
 	r.Trusted = summaryTrusted
+	stepGlue(cx, r, "C11")
 	r.Explanation = "No reference model is involved: for each of the 255 DD/FD opcodes and 256 DDCB/FDCB opcodes (implemented or not) the FD arm is summarised from the state in which IX and IY hold each other's initial value, and must equal the DD arm's summary with IX and IY exchanged back, including the ordered, guarded sequence of memory/port calls (the prefix byte is a constant of the specialisation). The support of every output of the DD arm must not contain IY."
 	if cx.Tier == "thorough" {
 		c11AST(cx, r)
